@@ -37,7 +37,7 @@ def coverage_case(rng, ratio):
     km = KernelModel('gain', (kh, kw))
     out = km._full_coverage_mask(in_ra.mask_ra, param_ra)
     obs = np.asarray(out.array).astype(bool)
-    case = [kh, kw, H, W, *covered.astype(float).ravel(), *joint.astype(float).ravel(), *obs.astype(float).ravel()]
+    case = [0, kh, kw, H, W, *covered.astype(float).ravel(), *joint.astype(float).ravel(), *obs.astype(float).ravel()]
     return [float(x) for x in case], dict(kernel_shape=[kh, kw], ratio=ratio, shape=[H, W], fine_mask=fine.astype(int).tolist(), joint=joint.astype(int).tolist())
 
 
@@ -96,13 +96,56 @@ def body(run):
         cases.append(c)
         metas.append(desc)
         run.count_case((k,), True, desc if k < 2 else None)
+    # the overlap process() hands to block_pairs, observed on real runs with and without partial masking
+    from homonim import RasterFuse
+    seen = []
+    orig_bp = RasterFuse.block_pairs
+
+    def spy(self, *a, **kw):
+        seen.append(tuple(int(v) for v in (kw['overlap'] if 'overlap' in kw else a[0])))
+        return orig_bp(self, *a, **kw)
+    RasterFuse.block_pairs = spy
+    try:
+        g0, pair0, mbm0, _ = fz.workable_pair(run.work, rng, lambda r: synth.aligned_geom(r, 30), (7, 7), 1, tag='ov')
+        for kshape0 in [(1, 1), (3, 3), (1, 3), (5, 3), (7, 5), (3, 7)]:
+            for mp in (True, False):
+                del seen[:]
+                try:
+                    fz.fuse(pair0['src_fn'], pair0['ref_fn'], run.work / 'ov.tif', model='gain', kernel_shape=kshape0, max_block_mem=1e6, param=False,
+                            model_config=dict(mask_partial=mp))
+                except Exception as ex:
+                    if type(ex).__name__ != 'BlockSizeError':
+                        raise
+                if seen:
+                    cases.append([1.0, float(kshape0[0]), float(kshape0[1]), float(mp), float(seen[-1][0]), float(seen[-1][1])])
+                    metas.append(dict(kernel_shape=list(kshape0), mask_partial=mp, overlap=list(seen[-1])))
+                    run.count_case(('ov', kshape0, mp), True, None)
+    finally:
+        RasterFuse.block_pairs = orig_bp
     failing, nt = run.corr('coverage', 'Corr.CheckC17', cases, shard=100)
     for k in failing[:5]:
-        run.add_break('correspondence-break', '_full_coverage_mask differs from Kernel.Morph.full_coverage', metas[k])
+        run.add_break('correspondence-break', '_full_coverage_mask differs from Kernel.Morph.full_coverage' if 'fine_mask' in metas[k] else
+                      'the block overlap process() uses is smaller than the erosion reach (+ 1 with partial masking): premise of C17_seam_sampling_safe', metas[k])
     # end to end: the dataset mask of the corrected image with mask_partial=True, both grids, several block sizes
-    for k in range(run.scale(16, 200)):
-        on_ref = k % 2 == 0
-        if on_ref:
+    for k in range(run.scale(21, 240)):
+        on_ref = k % 3 != 1
+        unaligned = k % 3 == 2       # reference grid, non-integer ratio / sub-pixel offset: subset, strictness and block independence only
+        if unaligned and k % 2 == 0:
+            for _try in range(50):
+                g = synth.random_geom(rng, max_src=run.scale(44, 64))
+                if g.ratio > 1 and min(g.src_shape) / g.ratio >= 9:
+                    break
+        elif unaligned:
+            # source pixel centres exactly on processing-pixel edges (e.g. 10 m pixels on a 30 m grid shifted by 15 m): the source window of
+            # an output block then holds a pixel that nearest re-projection takes from the neighbouring processing pixel
+            ratio = rng.choice([2, 3, 4, 2.5])
+            def tie_off():
+                return rng.randint(1, 3) + ((rng.randrange(int(ratio)) + 0.5) / ratio if ratio != 2.5 else 0.0)
+            sh = (rng.randint(30, 44), rng.randint(30, 44))
+            off = (tie_off(), tie_off())
+            g = synth.Geom(rng.choice([1.0, 0.5, 30.0]), ratio, *rng.choice([(16.0, 48.0), (300000.0, 6200000.0)]),
+                           (int(off[0] + sh[0] / ratio) + 4, int(off[1] + sh[1] / ratio) + 4), off, sh)
+        elif on_ref:
             ratio = rng.choice([1, 2, 4])
             sh = (rng.randint(10, 16) * ratio, rng.randint(10, 16) * ratio)
             off = (rng.randint(1, 4), rng.randint(1, 4))
@@ -124,11 +167,11 @@ def body(run):
         # valid pixels is never degenerate (zero source variance gives NaN gain-offset parameters, which partial masking then spreads -
         # the non-finite case every C01 / C17 statement excludes)
         yy, xx = np.mgrid[0:g.src_shape[0], 0:g.src_shape[1]]
-        src = (fz.texture(rng, g.src_shape, 1)[0] + ((yy // max(1, int(g.ratio))) * 3 + 7 * (xx // max(1, int(g.ratio)))) % 23 * 0.25).astype('float32')[None]
+        src = (40 + 1.75 * yy + 3.0 * xx + 0.25 * (fz.texture(rng, g.src_shape, 1)[0] % 2)).astype('float32')[None]
         pair = fz.make_pair(run.work, g, rng, src=src, smask=sm, rmask=rm, tag='m')
-        exp = expected_mask(pair, g, on_ref, kshape)
+        exp = None if unaligned else expected_mask(pair, g, on_ref, kshape)
         masks = []
-        for target in (1, rng.choice([4, 9])):
+        for target in (1, rng.choice([4, 9, 16])):
             try:
                 mbm, nblk = fz.pick_block_mem(pair['src_fn'], pair['ref_fn'], 'auto', target, kshape)
                 res = fz.fuse(pair['src_fn'], pair['ref_fn'], run.work / 'mp.tif', model=model, kernel_shape=kshape, proc_crs='auto', max_block_mem=mbm,
@@ -137,7 +180,7 @@ def body(run):
                 dist['skipped:' + type(ex).__name__] = dist.get('skipped:' + type(ex).__name__, 0) + 1
                 continue
             desc = dict(geom=g.describe(), kernel_shape=list(kshape), model=model, processing_grid=res['proc_crs'], blocks=nblk, max_block_mem=mbm)
-            key = f'{res["proc_crs"]}/blocks={"1" if nblk == 1 else ">1"}'
+            key = f'{res["proc_crs"]}{"-unaligned" if unaligned else ""}/blocks={"1" if nblk == 1 else ">1"}'
             dist[key] = dist.get(key, 0) + 1
             run.count_case((k, target), True, desc if len(run.cov['samples']) < 5 else None)
             got = res['corr']['mask']
@@ -149,7 +192,7 @@ def body(run):
                 problems['valid outside the source mask'] = [int(x) for x in np.argwhere(got & ~pair['smask'])[0]]
             if pair['smask'].any() and not (got.sum() < pair['smask'].sum()):
                 problems['not strictly smaller than the source mask'] = [int(got.sum()), int(pair['smask'].sum())]
-            if not np.array_equal(got, exp):
+            if exp is not None and not np.array_equal(got, exp):
                 d = np.argwhere(got != exp)[0]
                 problems['differs from "window grown by one fully supported"'] = dict(pixel=[int(d[0]), int(d[1])], got=bool(got[d[0], d[1]]), n_diff=int((got != exp).sum()))
             if problems:
@@ -159,14 +202,15 @@ def body(run):
             run.add_violation('partial mask depends on the block size', dict(geom=g.describe(), kernel_shape=list(kshape), model=model,
                               src_mask=pair['smask'].astype(int).tolist(), ref_mask_invalid=[[int(a), int(b)] for a, b in np.argwhere(~pair['rmask'])]),
                               observed=dict(differing_pixels=[[int(a), int(b)] for a, b in d[:10]], one_block=[bool(masks[0][a, b]) for a, b in d[:10]],
-                                            expected=[bool(exp[a, b]) for a, b in d[:10]]),
-                              signature=dict(kind='partial-mask-blocks', model=model,
-                                             pattern='lost-only' if not (masks[1] & ~masks[0]).any() and np.array_equal(masks[0], exp) else 'other'))
+                                            expected=None if exp is None else [bool(exp[a, b]) for a, b in d[:10]], n_diff=int(len(d))),
+                              signature=dict(kind='partial-mask-blocks', model=model, aligned=not unaligned,
+                                             pattern='lost-only' if not (masks[1] & ~masks[0]).any() and (exp is None or np.array_equal(masks[0], exp)) else 'other'))
     run.cov['evaluations'] += 0
     run.cov['rule'] = ('_full_coverage_mask on in-memory masks (input grid 1x / 2x / 4x finer, aligned) against the Gallina erosion in Coq; real fusions '
                        'with mask_partial=True on aligned dyadic geometries, both processing grids (source finer: ref grid; source equal / coarser: src grid), '
                        'kernels incl. h != w, 3 models, one block and 4..9 blocks: the corrected dataset mask must equal the characterisation computed '
-                       'independently, be a strict subset of the source mask and not depend on the block size')
+                       'independently, be a strict subset of the source mask and not depend on the block size; plus unaligned reference-grid geometries '
+                       '(ratios 1.7 / 2.5 / 3 / 4.3, sub-pixel offsets) judged on subset, strictness and block independence only')
     run.extra['input_distribution'] = dict(runs=dist, coverage_cases=len(cases), model_nontrivial=nt)
     run.assumptions += ['H_down_avg: GDAL average re-projection of a 0/1 mask is >= 1 exactly where every overlapping input pixel is 1 (exercised on aligned grids)',
                         'source pixel centres on processing-pixel edges are excluded (aligned geometries only): nearest re-projection ties are GDAL\'s']
